@@ -61,12 +61,63 @@ def corr_parseH(ctx, items, name='corr_parse'):
     return [(items[i], cases[i][1], o) for i, o in bad]
 
 
+import contextlib
+import copy
+
+CLASS_ATTRS = ('_lead_in', '_lead_out', '_bursts', '_repeat_lead_in', '_repeat_lead_out', '_middle_timings',
+               '_repeat_bursts', '_stored_codes', '_parameters', '_parameters1', '_parameters2', 'encode_parameters',
+               '_code_order', 'bit_count', 'repeat_timeout', '_has_repeat_lead_out', 'encoding', 'frequency')
+
+
+def class_state(cls):
+    """Deep copy of the class-level tables of a protocol class (own and inherited)."""
+    st = {}
+    for a in CLASS_ATTRS:
+        if hasattr(cls, a):
+            st[a] = (a in cls.__dict__, copy.deepcopy(getattr(cls, a)), getattr(cls, a))
+    return st
+
+
+def restore_class_state(cls, st):
+    """Puts the class-level tables back (in place for lists, so aliases are repaired too).  Returns the names
+    that had been changed."""
+    changed = []
+    for a, (own, val, obj) in st.items():
+        cur = getattr(cls, a, None)
+        if cur is not obj or cur != val:
+            changed.append(a)
+        if isinstance(obj, list):
+            obj[:] = copy.deepcopy(val)
+            if own or a in cls.__dict__:
+                setattr(cls, a, obj)
+        elif own:
+            setattr(cls, a, val)
+        if not own and a in cls.__dict__:
+            try:
+                delattr(cls, a)
+            except Exception:  # noqa
+                pass
+    return changed
+
+
+@contextlib.contextmanager
+def class_guard(cls, report=None):
+    st = class_state(cls)
+    try:
+        yield
+    finally:
+        ch = restore_class_state(cls, st)
+        if ch and report is not None:
+            report.extend(ch)
+
+
 def fresh_encode(p, params, **kw):
     """encode on a fresh instance; returns (code, None) or (None, exception)."""
-    try:
-        return p['cls']().encode(**params, **kw), None
-    except Exception as e:  # noqa
-        return None, e
+    with class_guard(p['cls']):
+        try:
+            return p['cls']().encode(**params, **kw), None
+        except Exception as e:  # noqa
+            return None, e
 
 
 def period_of(p):
